@@ -8,6 +8,7 @@ fn main() {
     let code = match args.engine.as_str() {
         "chain" => engines::chain::run(&args),
         "pool" => engines::pool::run(&args),
+        "rules" => engines::rules::run(&args),
         "crash" => engines::crash::run(&args),
         "freeze" => engines::freeze::run(&args),
         "freeze-child" => engines::freeze::child(&args),
